@@ -238,6 +238,17 @@ def run_workers(fn, nworkers, *args):
     return total
 
 
+def alloc_limit(run, res):
+    """True (and counted as inconclusive) when the run ended because one request exceeded the allocation cap that ASAN_OPTIONS sets for
+    every check (max_allocation_size_mb): a limit of the harness, not a verdict about the code."""
+    err = getattr(run, "err", "") or ""
+    if "out-of-memory" in err or "allocation-size-too-big" in err or "requested allocation size" in err or "allocator is out of memory" in err:
+        res.inconclusive += 1
+        res.label("allocator-limit (one request above the sanitizer allocation cap)")
+        return True
+    return False
+
+
 def crash_head(err, n=5):
     """The informative part of a sanitizer report: the error line and the first frames inside /repo."""
     lines = err.splitlines()
